@@ -32,6 +32,9 @@ type RootSpec struct {
 	NoReplay  bool     `json:"no_replay"` // findings of this root cannot be replayed natively (stated)
 	MaxPaths  int      `json:"max_paths"`
 	Replace   map[string]string `json:"replace"` // callee (full name) -> harness function with the same signature, engine side only
+	PreemptBound int   `json:"preemption_bound"` // max preemptive context switches per path (default 2)
+	PreemptAt   []string `json:"preempt_at"` // restrict lock preemption points to Lock calls made from functions matching one of these substrings
+	PreemptLock bool   `json:"preempt_at_lock"` // every mutex acquisition is a preemption point
 	SkipGo    []string `json:"skip_go"` // goroutines (by function-name substring) that are not started in this root
 }
 
@@ -128,8 +131,8 @@ func (r *RootSpec) tuples(tier string) [][]int {
 			add(product(r.ThoroughP))
 		}
 	}
-	if len(out) == 0 {
-		out = [][]int{{}}
+	if len(out) == 0 && r.Quick == nil && r.Thorough == nil && r.QuickP == nil && r.ThoroughP == nil {
+		out = [][]int{{}} // a harness without parameters
 	}
 	return out
 }
@@ -198,6 +201,7 @@ func vYield(id string)
 func vGo(name string, f func())
 func vSeqPart(key, prefix string, idx int) uint64
 func vTempDir() string
+func vSleep(ms int)
 `
 
 type Loaded struct {
@@ -379,6 +383,12 @@ func newMachine(l *Loaded, spec *RootSpec, solverBin string) *Machine {
 		m.summarize[s] = true
 	}
 	m.skipGo = spec.SkipGo
+	m.preemptLock = spec.PreemptLock
+	m.preemptBound = spec.PreemptBound
+	m.preemptAt = spec.PreemptAt
+	if m.preemptBound == 0 {
+		m.preemptBound = 2
+	}
 	m.replace = spec.Replace
 	m.ctx.solver = NewSolver(solverBin, "-in", "-t:20000")
 	return m
@@ -445,6 +455,9 @@ func runRoot(l *Loaded, spec *RootSpec, args []int, nSamples int) (res *RootResu
 	m.pushFrame(st, hf, hargs, nil, nil)
 	work := []*State{st}
 	byID := map[string]*Finding{}
+	if v := os.Getenv("VERIF_MAXPATHS"); v != "" {
+		fmt.Sscan(v, &spec.MaxPaths)
+	}
 	maxPaths := spec.MaxPaths
 	if maxPaths == 0 {
 		maxPaths = 2000000
@@ -634,6 +647,9 @@ func cmdRun(a []string) int {
 					spec.SkipGo = r.SkipGo
 				}
 				spec.Replace = r.Replace
+				spec.PreemptLock = r.PreemptLock
+				spec.PreemptBound = r.PreemptBound
+				spec.PreemptAt = r.PreemptAt
 			}
 		}
 	}
